@@ -11,6 +11,8 @@ from .core import *
 class Contract:
     def __init__(self, qn, **kw):
         self.qn = qn
+        self.key = qn
+        self.theorem = False
         self.props = kw.pop("props", [])
         self.params = kw.pop("params", {})  # name -> Sort (ordered)
         self.result = kw.pop("result", None)  # Sort or None
@@ -35,6 +37,7 @@ class Contract:
         self.local_sorts = kw.pop("local_sorts", {})
         self.ghost_init = kw.pop("ghost_init", None)
         self.ghost_vars = kw.pop("ghost_vars", [])
+        self.logical = kw.pop("logical", {})  # universally quantified logical variables (theorem contracts; not usable at call sites)
         self.pools = kw.pop("pools", {})  # bounded search: value pools per parameter / record field
         self.oracle = kw.pop("oracle", None)  # bounded search: executable oracle in /verif/oracles.py
         self.needs = kw.pop("needs", {})  # ensures label -> invariant labels revealed to the solver (others hidden)  # ensures/raises label -> known-finding id (region handled in known_findings.json)
@@ -98,7 +101,10 @@ class Registry:
 
         def contract(qn, **kw):
             kw.setdefault("module", sm)
-            c = Contract(qn, **kw)
+            c = Contract(qn.split("#")[0], **kw)
+            c.key = qn
+            if "#" in qn:
+                c.theorem = True
             reg.contracts[qn] = c
             return c
 
